@@ -27,6 +27,10 @@ def gen(rng):
         back.setdefault(a, []).append(c)
     np_ = rng.randint(1, 10)
     prot = "".join(rng.choice(AAS) for _ in range(np_))
+    if rng.random() < 0.2:
+        # runs of six-fold amino acids (many neighbouring sub-optimal codons, large local spaces)
+        np_ = rng.randint(8, 30)
+        prot = "".join(rng.choice("LLRRSSLRS" + AAS[:3]) for _ in range(np_))
     if rng.random() < 0.3:
         prot = prot[:-1] + "*"
         back["*"] = list(std.stop_codons)
